@@ -99,14 +99,14 @@ Print Assumptions c02_no_other_names.
    the session cookie of a login by form or by Basic header, the Basic header on the request itself, a
    client certificate of this keymaster, an IP-restricted automation certificate.  Whatever the way k, the name as typed, the password, the
    password backend, the Okta filter, the normalisation switch, the server and the rest of the request:
-   if a certificate is issued then the credential path admitted exactly account_of k typed - the
+   if a certificate is issued then the credential path handed on exactly account_of k typed - the
    normalisation (reprocessUsername) of the typed name; a certificate's common name as it stands -, the
    certificate names exactly that account, the URL segment is that account byte for byte (NOT the name
    as typed, unless that is the account), the certified key is the submitted one, and on the password
    paths the backend accepted the password for THAT account. *)
 Theorem c02_user_is_normalised : forall okta disable backend automation expand st0 q0 now k typed pw u c,
   ident_certgen okta disable backend automation expand st0 q0 now k typed pw = Issued u c ->
-  admitted okta disable backend automation k typed pw = Some (account_of okta disable k typed) /\
+  identity_of okta disable backend automation k typed pw = Some (account_of okta disable k typed) /\
   d_names c = [account_of okta disable k typed] /\
   q_target q0 = account_of okta disable k typed /\
   (exists ed, q_key q0 = Some (d_key c, ed)) /\
@@ -119,7 +119,7 @@ Print Assumptions c02_user_is_normalised.
    name), on the password paths it is the one account the backend was asked about and accepted the password
    for, and an IP-restricted certificate's name is byte for byte a configured automation user *)
 Theorem c02_identity_is_account : forall okta disable backend automation k typed pw id,
-  admitted okta disable backend automation k typed pw = Some id ->
+  identity_of okta disable backend automation k typed pw = Some id ->
   id = account_of okta disable k typed /\
   (password_kind k = true -> p_asked (cred_path okta disable backend automation k typed pw) = Some id /\ backend id pw = true) /\
   (k = KIpCert -> automation id = true).
